@@ -24,7 +24,7 @@ LICENCE_TEXT = "Permission is hereby granted.\n"
 
 
 def gen_tree(seed, kind):
-    """-> (root directory name, {relative path: str|bytes}).  kind: toml | dep5 | plain | subprojects-root | git"""
+    """-> (root directory name, {relative path: str|bytes}).  kind: toml | toml-partial | dep5 | plain | subprojects-root | git"""
     rng = random.Random("c14-tree:%s:%s" % (seed, kind))
     files = {}
     lic_used = ["MIT", "GPL-3.0-or-later", "Apache-2.0", "LicenseRef-custom"]
@@ -68,6 +68,22 @@ def gen_tree(seed, kind):
         else:
             body = "# SPDX-FileCopyrightText: 2020 Jane Doe\n# SPDX-License-Identifier: GPL-2.0+\n"  # plus form
         files[name] = body
+    if kind == "toml-partial":
+        # closest tables that supply only one half each, so that the other half has to come from an outer table: any state
+        # shared between look-ups would make the answer for one file depend on which files were handled before it
+        files["REUSE.toml"] = (
+            'version = 1\n\n[[annotations]]\npath = "**/*.txt"\nprecedence = "closest"\n'
+            'SPDX-FileCopyrightText = "2000 Root Toml"\nSPDX-License-Identifier = "CC0-1.0"\n')
+        files["top.txt"] = "text\n"
+        for d in ["src", "src/deep", "docs", "lib"]:
+            files.setdefault(d + "/keep.txt", "text\n")
+            half = rng.choice(["cpr", "lic", "both", "none"])
+            if half == "none":
+                continue
+            files[d + "/REUSE.toml"] = (
+                'version = 1\n\n[[annotations]]\npath = "**"\nprecedence = "closest"\n%s%s'
+                % ('SPDX-FileCopyrightText = "2010 Inner %s"\n' % d.replace("/", " ") if half in ("cpr", "both") else "",
+                   'SPDX-License-Identifier = "%s"\n' % rng.choice(["MIT", "GPL-3.0-or-later"]) if half in ("lic", "both") else ""))
     if kind in ("toml", "subprojects-root", "git"):
         files["REUSE.toml"] = (
             'version = 1\n\n[[annotations]]\npath = "**/*.txt"\nprecedence = "%s"\n'
